@@ -26,11 +26,70 @@ let slot_of s : slot =
       s_snap_pages = []; s_req = [] }
   | _ -> failwith "slot"
 
+(* ---- second protocol: the ownership-level model (coq/Reopen/Snapshot.v) carried along a recorded history.
+   The driver keeps an extracted [xst] whose ownership part is a placeholder (page sets are validated by the
+   direct oracle allocated == required); what it predicts per event is: the needs_repair latch, whether the
+   durable image holds an allocator-state table and with which id, the two-phase flag, and the path the next
+   open takes.  Events (after the history id):
+     x new                               new history
+     x commit k=<1pc|2pc|qr> id=<n>      a durable WriteTransaction commit that published id n
+     x leak | x abort                    a panic unwound the write transaction | a successful rollback
+     x check clean=<0|1>                 check_integrity without a pending non-durable commit, and its verdict
+     x promote id=<n>                    check_integrity rebuilt the live state and promoted a pending non-durable commit
+                                         by an ordinary one-phase durable commit that published id n
+     x probe                             which path would an open of the durable image take now?
+     x crash | x close                   the process ends (kill | Database::drop), the next line of output is the open
+     x resync id=<n> snap=<n|-> tpc=<b>  image taken from observation (stop in the middle of a commit)
+   Output: `<hist> x nrep=<b> snap=<id|-> tpc=<b> id=<n|*> [path=<load|rebuild>]` *)
+let xs = ref xinit
+let known = ref true
+let b01 b = if b then "1" else "0"
+let show path =
+  let i = (!xs).img in
+  Printf.sprintf "x nrep=%s snap=%s tpc=%s id=%s%s" (b01 (!xs).nrep)
+    (match i.d_snap with
+     | Some s -> if !known then string_of_int (int_of_n s.snap_txid)
+                 else if int_of_n s.snap_txid = int_of_n i.d_ver.vid then "=" else "*"
+     | None -> "-")
+    (b01 i.d_tpc) (if !known then string_of_int (int_of_n i.d_ver.vid) else "*")
+    (match path with Some Load -> " path=load" | Some Rebuild -> " path=rebuild" | None -> "")
+let xevent h (w : string list) =
+  let out s = Printf.printf "%s %s\n" h s in
+  match w with
+  | ["new"] -> xs := xinit; known := true; out (show None)
+  | ["commit"; k; id] ->
+    let k = kv k and id = n_of_int (int_of_string (kv id)) in
+    let fl = commit_flags !xs (k = "qr") (k = "2pc") in
+    xs := { !xs with img = flag_image fl id }; known := true; out (show None)
+  | ["leak"] -> xs := xstep !xs XLeak; out (show None)
+  | ["abort"] -> xs := xstep !xs (XOp (OAbort, false)); out (show None)
+  | ["check"; c] -> xs := xstep { !xs with own = init } (XCheck ([], kv c = "1")); out (show None)
+  | ["promote"; id] ->
+    let id = n_of_int (int_of_string (kv id)) in
+    xs := { !xs with leaked = []; nrep = false };
+    xs := { !xs with img = flag_image (commit_flags !xs false false) id }; known := true; out (show None)
+  | ["probe"] -> out (show (Some (open_path (!xs).img)))
+  | ["crash"] -> let p = open_path (!xs).img in xs := xstep !xs XCrash; out (show (Some p))
+  | ["close"] ->
+    let x0 = { !xs with own = init } in
+    let p = open_path (closed_image [] x0) in
+    if not x0.nrep then known := false;
+    xs := xstep x0 (XClose []); out (show (Some p))
+  | ["resync"; id; sn; tpc] ->
+    let id = n_of_int (int_of_string (kv id)) in
+    let sn = if kv sn = "-" then None else Some { snap_txid = n_of_int (int_of_string (kv sn)); snap_pages = [] } in
+    xs := { own = init; leaked = []; nrep = false;
+            img = { d_ver = { vid = id; vdata = []; vsys = [] }; d_dfreed = []; d_sfreed = []; d_sps = [];
+                    d_snap = sn; d_tpc = (kv tpc = "1"); d_clean = false } };
+    known := true; out (show None)
+  | _ -> out "BADEVENT"
+
 let () =
   try
     while true do
       let line = input_line stdin in
       match String.split_on_char ' ' line with
+      | h :: "x" :: w -> xevent h w
       | [h; "open"; p; rr; tpc; s0; s1] ->
         let i = { g_primary = (kv p = "1"); g_rr = (kv rr = "1"); g_tpc = (kv tpc = "1");
                   slot0 = slot_of s0; slot1 = slot_of s1 } in
